@@ -67,6 +67,8 @@ def _leaf(fam):
         # update() handed something that is not a mapping, on an instance or on the class
         st.tuples(st.just("bad_update_arg"), st.sampled_from([0, 1, "class"])),
         st.tuples(st.just("bad_trigger"), t, n),
+        # watch() given a name that is not a parameter, after a valid one
+        st.tuples(st.just("bad_watch"), t),
         st.tuples(st.just("unknown_trigger"), t, n),
     ).map(list)
 
@@ -431,6 +433,16 @@ def execute(case):
                     if not seen_cls or world.W.param._BATCH_WATCH or world.W.param._events:
                         res.fail("C05.state_left", f"after update(5) failed on the class, a class-level assignment is no longer "
                                                    f"dispatched immediately (batch flag {world.W.param._BATCH_WATCH})")
+                raise
+        elif kind == "bad_watch":
+            t = node[1]
+
+            def stray(*events):
+                world.trace.append(("stray_watcher", [e.name for e in events]))
+            try:
+                world.targets[t].param.watch(stray, ["a", "nosuchparameter"], onlychanged=False)
+            except ValueError:
+                note_fault("watch_unknown_name")
                 raise
         elif kind == "slot":
             t = node[1]
